@@ -566,6 +566,14 @@ class simplify_chained_calls(FuncADLNodeTransformer):
         """
         v = self.visit(node.value)
         s = self.visit(node.slice)
+        if (
+            isinstance(s, ast.UnaryOp)
+            and isinstance(s.op, ast.USub)
+            and isinstance(s.operand, ast.Constant)
+            and type(s.operand.value) is int
+        ):
+            # A negative literal index is parsed as -(n)
+            s = ast.Constant(value=-s.operand.value)
         # Only a constant index or key can be looked up here
         if isinstance(s, ast.Constant) and type(s.value) in (int, bool):
             if type(v) is ast.Tuple:
